@@ -319,6 +319,11 @@ struct lzxd_stream *lzxd_init(struct mspack_system *system,
     return NULL;
   }
 
+  /* R0-R2 can be set to 0 by an uncompressed block, which makes a match
+   * copy window bytes that have not been written yet: make them defined
+   * rather than whatever the allocator handed out */
+  memset(lzx->window, 0, (size_t) window_size);
+
   /* initialise decompression state */
   lzx->sys             = system;
   lzx->input           = input;
